@@ -6,6 +6,11 @@ def gen(family, histories=40, length=120, deep=False, **kw):
     d.update(kw)
     return d
 
+def matrix(kind, **kw):
+    d = {'kind': 'matrix', 'family': kind}
+    d.update(kw)
+    return d
+
 def pure(kind, count=10000, **kw):
     d = {'kind': 'pure', 'family': kind, 'count': count}
     d.update(kw)
@@ -70,5 +75,30 @@ PROPS = {
         'families': [pure('swapinfo', 10000, thorough_scale={'count': 80000}), gen('rewards', 30, 120), gen('admin', 10, 100)],
         'slice': [r'f\.swapinfo', r'hub\.ugi', r'disp\..*', r'inst\.disp'],
         'explanation': 'swap decision and dispatch split proved for all balances/prices/rates; get_swap_info driven through the real SwapToRewardDenom with fixed balances over the whole price range [1e-18,1e18]; whole index updates on the minichain',
+    },
+    'C10': {
+        'families': [matrix('c10'), gen('admin', 15, 100), gen('mixed', 10, 100)],
+        'slice': [r'hub\..*', r'tok\..*', r'reward\..*', r'disp\..*', r'reg\..*'],
+        'exhaustive': True,
+        'thorough_mult': 4,
+        'explanation': 'decision tables proved per contract; exhaustive matrix: every execute variant of the six contracts (61 payloads) x 14 sender classes x 4 state classes '
+                       '(fresh, evolved, after completed ownership transfer, after abandoned transfer), each cell executed on the real contracts from a saved state and on the model, '
+                       'judged against the principal table read from the implementation\'s own queries; plus admin/mixed histories',
+    },
+    'C11': {
+        'families': [matrix('c11'), gen('admin', 20, 100)],
+        'slice': [r'hub\..*', r'env\.legacy'],
+        'exhaustive': True,
+        'thorough_mult': 6,
+        'explanation': 'guard theorem + pause/unpause identity proved; matrix: every hub variant x 14 senders while paused, with and without legacy wait-list entries, un-pause attempts, migration steps; '
+                       '12 random histories re-run with a pause/blocked-call/unpause cycle inserted at a random position and compared with the uninterrupted run',
+    },
+    'C20': {
+        'families': [matrix('c20'), gen('admin', 20, 100)],
+        'slice': [r'hub\.uparams', r'hub\.uconfig', r'disp\.u.*', r'reward\.u.*', r'reg\.uconfig', r'inst\..*'],
+        'exhaustive': True,
+        'thorough_mult': 4,
+        'explanation': 'range invariants and field-wise frame conditions proved for every message of hub and dispatcher; matrix: all 2^6 x 5 UpdateParams, 2^7 hub UpdateConfig, 2^6 x 5 dispatcher UpdateConfig, '
+                       '2^3 reward UpdateConfig patterns with in-range, boundary and out-of-range values, and instantiate messages over the same value classes',
     },
 }
